@@ -397,7 +397,10 @@ def run_world(arg):
             raise
         except Exception as e:      # noqa
             return ['exc', type(e).__name__], None
-        return ['ok'] + value_of(r), r
+        try:
+            return ['ok'] + value_of(r), r
+        except Exception as e:      # noqa
+            return ['unobservable', type(e).__name__], r
 
     out = []
     for st in steps:
